@@ -34,6 +34,10 @@ func newLogger(p *LoggerProvider, scope instrumentation.Scope) *logger {
 }
 
 func (l *logger) Emit(ctx context.Context, r log.Record) {
+	// Do not process or export records after the provider has been shut down.
+	if l.provider.stopped.Load() {
+		return
+	}
 	newRecord := l.newRecord(ctx, r)
 	for _, p := range l.provider.processors {
 		if err := p.OnEmit(ctx, &newRecord); err != nil {
